@@ -711,3 +711,22 @@ package writer
 //@   assumed
 //@   preserves fieldsof(structs.SearchCondition)
 //@ end
+
+// C03 (an accelerator only skips work, never events): the bloom check over the
+// in-memory micro-indices of an OPEN segment removes a block from the search
+// only while those micro-indices are in memory (isCmiLoaded): once the memory
+// limiter has evicted them, "no bloom entry for this column" says nothing about
+// the block, and nothing may be pruned (the flag as the check found it on entry).
+//@ func (*UnrotatedSegmentInfo).doBloomCheckForCols
+//@   props C03
+//@   assumecalleerequires
+//@   requires usi != nil
+//@   site call delete #1:
+//@     assert [a-block-is-pruned-only-while-the-micro-indices-are-in-memory] old(usi.isCmiLoaded)
+//@ end
+// eviction leaves no per-block slot behind and marks the segment as not loaded
+//@ func (*UnrotatedSegmentInfo).removeInMemoryMetadata
+//@   props C03
+//@   requires usi != nil
+//@   ensures [an-evicted-segment-has-no-micro-index-slots-and-is-marked-not-loaded] !usi.isCmiLoaded && len(usi.unrotatedBlockCmis) == 0
+//@ end
